@@ -4,6 +4,7 @@ from __future__ import annotations
 from .. import astdump, core, qeval, qgen, qpool, surface
 
 LEVEL = "proof"
+READY = True
 CLAIM = {
     "text": "Lean theorems over ALL compiled expressions: the model of the serializer (JSONPath.__str__, selectors, BooleanExpression._canonical_string, Infix/Prefix "
             "expression printing, literals, canonical string quoting) prints a text that the model reader of the canonical form reads back to an equivalent AST (same up to "
